@@ -149,3 +149,48 @@ def random_general(seed, n, base_id, k=3, sigma=(A, B, C, 120), nsets=(1, 2, 2, 
         if tries > 50 * n + 100:
             raise RuntimeError("generator cannot produce well-formed programs")
     return out
+
+
+def join_templates(seed, n, base_id, k=5, letters=(A, B), sigma=(A, B, 120), p_eoi=0.5, nsets=(1, 2),
+                   p_ctx=0.0):
+    """Definitions built around a join: a state reachable both through an accepting state (rule
+    `x`) and around it (rule `(x|y) z w`), so that a failing scan can die in a state flagged for
+    rewinding without anything having been accepted on the path taken.  Optionally with `$` rules
+    and with a second rule set entered by a switch."""
+    g = Gen(seed, letters=letters)
+    out = []
+    while len(out) < n:
+        ns = g.rnd.choice(nsets)
+        sets = []
+        for si in range(ns):
+            x, y = g.rnd.sample(list(letters), 2)
+            z = g.rnd.choice(list(letters))
+            w = g.rnd.choice(list(letters))
+            tail = g.rnd.choice([str_([z, w]), cat(chr_(z), plus(chr_(w))), str_([z, w, z])])
+            short = chr_(x)
+            long_ = cat(alt(chr_(x), chr_(y)), tail)
+            if p_ctx and g.rnd.random() < p_ctx:
+                # the context variant: an accepting state whose only rule has a context, with
+                # further transitions
+                short = str_([x, z])
+                long_ = str_([x, z, w, y])
+                rules = [inf_rule(short, ctx=chr_(w)), inf_rule(long_)]
+            else:
+                rules = [inf_rule(short), inf_rule(long_)]
+            if g.rnd.random() < 0.5:
+                rules.append(inf_rule(g.rule_regex(1)))
+            if g.rnd.random() < p_eoi:
+                rules.append(inf_rule(g.rnd.choice([eoi(), cat(chr_(y), eoi())])))
+            g.rnd.shuffle(rules)
+            sets.append(("Init" if si == 0 else "S%d" % si, rules))
+        if ns > 1:
+            # entering the other rule sets: some rule of each set switches (continue or return)
+            for si in range(ns):
+                tgt = (si + 1) % ns
+                r = g.rnd.choice(sets[si][1])
+                r["menu"] = [D(g.rnd.random() < 0.5, tgt, g.rnd.choice([0, 1]))] + (
+                    [D(False, -1, 1)] if g.rnd.random() < 0.5 else [])
+        p = Program(base_id + len(out), sets, sigma=sigma, k=k)
+        if p.well_formed():
+            out.append(p)
+    return out
